@@ -91,6 +91,11 @@ def follow_capture(fx, ctx_, b, local, depth=0):
                         elif s2["k"] in ("call", "store", "ret", "yield", "agg"):
                             out.append((cb, dict(s2, via_closure=c["def"])))
                 continue
+        if s["k"] == "call" and depth < 5 and fx.callee_fn(s["t"]) is not None and fx.callee_fn(s["t"])["kind"] in ("fn", "assoc_fn") and not fx.callee_fn(s["t"]).get("is_async"):
+            # handed to a crate-local function (a payload constructor such as `Payload::request(msg, tx)`): go on inside
+            h_ = fx.callee_fn(s["t"])
+            out.extend(follow_capture(fx, ctx_, ctx_.body(fx, h_), s["idx"] + 1, depth + 1))
+            continue
         if s["k"] == "agg" and s.get("ak") in ("closure", "coroutine") and depth < 5:
             child = fx.fn(s["def"])
             if child is None:
@@ -326,6 +331,12 @@ def _check_response_slots(ctx, fx, cfg):
 
 
 def check_rest(ctx, fx, cfg):
+    # R02.9 halt and the awaits of a handle resolve with the termination result: every halting entry point requests the stop
+    # and then awaits the address (which reports a failed termination as an error) — never its own copy of the termination
+    # future with the outcome thrown away (shared with C04)
+    if cfg == "tokio":
+        from props import c04 as _c04
+        core.shared(ctx, "R02.9", _c04.check_awaiters, ctx, fx)
     # R02.2 / R02.3
     for f, kind in loops.find_loops(fx):
         up = f.get("upvars", [])
